@@ -62,6 +62,8 @@ func init() {
 	netC01OnSign = c01OnSign
 	netC01SyncKinds = c01SyncKinds
 	netC01ByzCommit = c01ByzCommit
+	netC01ByzExtra = c01ByzExtra
+	netC01OnCommit = c01OnCommit
 	netC01NoteBlock = func(s *netSim, blk *types.Block, kind string) {
 		if kind != "valid" {
 			c01Of(s).invalid[blk.Hash()] = kind
@@ -72,6 +74,8 @@ func init() {
 // c01Pick: which family run idx belongs to.
 func c01Pick(idx int) string {
 	switch idx % 10 {
+	case 1:
+		return "resign"
 	case 3:
 		return "direct:vc"
 	case 5:
@@ -114,6 +118,7 @@ func c01AfterStep(s *netSim, nd *netNode, what string) {
 	if ht == nil {
 		return
 	}
+	c01Maj23(s, nd, ht, what)
 	idx, isVal := ht.idxOf[nd.id]
 	if cs.LockedBlock == nil {
 		if cs.LockedRound != 0 || cs.LockedBlockParts != nil {
@@ -169,6 +174,62 @@ func c01AfterStep(s *netSim, nd *netNode, what string) {
 		return
 	}
 	s.fail("lock-state", fmt.Sprintf("node=%d h=%d r=%d: locked on block %d (LockedRound=%d) without having signed a precommit for it (after %s)", nd.id, cs.Height, cs.Round, locked, cs.LockedRound, what))
+}
+
+// c01Maj23: a +2/3 majority of a node's vote set is backed by the power of the DISTINCT validators
+// whose vote for that value the set holds (a quorum is a set of validators, however often one signs).
+func c01Maj23(s *netSim, nd *netNode, ht *netHeight, what string) {
+	cs := nd.cs
+	lo := uint32(1)
+	if cs.Round > 10 {
+		lo = cs.Round - 10
+	}
+	for r := lo; r <= cs.Round+3; r++ {
+		for _, vs := range []*types.VoteSet{cs.Votes.Prevotes(r), cs.Votes.Precommits(r)} {
+			if vs == nil {
+				continue
+			}
+			bid, ok := vs.TwoThirdsMajority()
+			if !ok {
+				continue
+			}
+			ba := vs.BitArrayByBlockID(bid)
+			if ba == nil {
+				continue
+			}
+			p := int64(0)
+			for i, pw := range ht.powers {
+				if ba.GetIndex(i) {
+					p += pw
+				}
+			}
+			if !netQuorum(p, ht.total) {
+				s.fail("maj23-not-backed-by-distinct-validators", fmt.Sprintf("node=%d h=%d r=%d: its %s set of round %d reports +2/3 for block %d, but the validators whose vote for it the set holds have %d of %d voting power (after %s)",
+					nd.id, cs.Height, cs.Round, map[bool]string{true: "precommit", false: "prevote"}[vs.Type() == kproto.PrecommitType], r, ht.bid(bid), p, ht.total, what))
+				return
+			}
+		}
+	}
+}
+
+// c01OnCommit: the commit a correct node saves is backed by the power of the distinct validators whose
+// precommit for the block it carries (slot i = validator i, signature recovered independently).
+func c01OnCommit(s *netSim, nd *netNode, ht *netHeight, seen *types.Commit) {
+	p := int64(0)
+	if seen != nil && len(seen.Signatures) == len(ht.powers) {
+		for i := range seen.Signatures {
+			if !seen.Signatures[i].ForBlock() {
+				continue
+			}
+			if addr, ok := c01Recover(seen.GetVote(uint32(i))); ok && addr.Equal(s.keys[ht.nodeOf[i]].GetAddress()) {
+				p += ht.powers[i]
+			}
+		}
+	}
+	if !netQuorum(p, ht.total) {
+		s.fail("commit-not-backed-by-distinct-validators", fmt.Sprintf("height %d: node %d committed block %d in round %d on a commit in which the distinct validators with a valid precommit for it hold %d of %d voting power",
+			ht.h, nd.id, ht.bid(seen.BlockID), seen.Round, p, ht.total))
+	}
 }
 
 // c01Recover: the address whose key made the signature over the vote's sign bytes (secp256k1
@@ -599,6 +660,9 @@ func c01Roles(s *netSim, vals []*types.Validator) {
 	if f > maxf {
 		f = maxf
 	}
+	if s.scenario == "resign" && f == 0 {
+		f = 1
+	}
 	for _, k := range s.r.Perm(n)[:f] {
 		s.byz[k] = true
 	}
@@ -626,8 +690,183 @@ func c01Run(s *netSim) bool {
 			// the prefix is legal whatever point it stopped at: the run goes on synchronously
 		}
 		return true
+	case "resign":
+		d := &c01Dir{s: s, ht: s.hs[1], cor: s.correct(), byzV: map[string]*netMsg{}}
+		ok := false
+		if p := netGuarded(func() { ok = d.resign() }); p != "" {
+			s.fail("harness-panic", "resign director: "+strings.Split(p, "\n")[0])
+			return false
+		}
+		s.hold = nil
+		if !ok {
+			s.o.Count("scenario:resign:prefix-not-reached:" + d.why)
+		}
+		return true
 	}
 	return false
+}
+
+// c01Flood: Byzantine validator b makes `tgt` track its conflicting votes for bid in (round, typ) — its
+// first vote there is for nil, then a peer's +2/3 claim for bid (what ConsensusManager.Receive does with a
+// VoteSetMaj23 message) — and then signs the same vote for bid k times with k different timestamps;
+// finally the parts of the block, if the harness has them.  One validator, however often it signs, is
+// one validator.
+func c01Flood(s *netSim, tgt *netNode, b int, h uint64, round uint32, typ kproto.SignedMsgType, bid types.BlockID, k int) {
+	ht := s.hs[h]
+	if ht == nil || tgt.dead != "" || tgt.cs.Height != h {
+		return
+	}
+	to := []int{tgt.id}
+	if v := s.byzVote(b, h, typ, round, types.BlockID{}); v != nil {
+		s.sendByz(&netMsg{h: h, kind: 'V', vote: v, from: b}, to, true)
+	}
+	s.setMaj23(tgt, b, round, typ, bid)
+	for i := 0; i < k && tgt.dead == "" && tgt.cs.Height == h; i++ {
+		if v := s.byzVote(b, h, typ, round, bid); v != nil {
+			s.sendByz(&netMsg{h: h, kind: 'V', vote: v, from: b}, to, true)
+		}
+	}
+	if ps := ht.psets[bid.Hash]; ps != nil && ps.Header().Equals(bid.PartsHeader) {
+		for i := 0; i < int(ps.Total()) && tgt.dead == "" && tgt.cs.Height == h; i++ {
+			s.deliver(tgt, &netMsg{h: h, kind: 'B', part: ps.GetPart(i), round: tgt.cs.Round, psh: ps.Header(), from: b}, fmt.Sprintf("byz%d", b))
+		}
+	}
+	s.o.Count("byz:resign-flood")
+}
+
+// c01ByzExtra: the re-sign flood as one more action of the adversary of the random runs.
+func c01ByzExtra(s *netSim, tgt *netNode, b int, h uint64, round uint32) bool {
+	ht := s.hs[h]
+	if ht == nil {
+		return false
+	}
+	idx, ok := ht.idxOf[b]
+	if !ok || ht.powers[idx] == 0 {
+		return false
+	}
+	var bid types.BlockID
+	// a block the harness has the parts of, if any; else any known id
+	var cands []types.BlockID
+	for _, hsh := range ht.blockL {
+		if ps := ht.psets[hsh]; ps != nil {
+			cands = append(cands, types.BlockID{Hash: hsh, PartsHeader: ps.Header()})
+		}
+	}
+	if len(cands) > 0 {
+		bid = cands[s.r.Intn(len(cands))]
+	} else if len(ht.bidList) > 0 {
+		bid = ht.bidList[s.r.Intn(len(ht.bidList))]
+	} else {
+		return false
+	}
+	typ := []kproto.SignedMsgType{kproto.PrevoteType, kproto.PrecommitType, kproto.PrecommitType}[s.r.Intn(3)]
+	if s.r.Chance(1, 4) && round > 1 {
+		round--
+	}
+	k := int(3*ht.total/ht.powers[idx])/2 + 2 + s.r.Intn(3) // enough to pass 2/3 if every signature counted
+	if k > 40 {
+		k = 40
+	}
+	c01Flood(s, tgt, b, h, round, typ, bid, k)
+	return true
+}
+
+// resign: the correct validators other than the victim decide block X in round 1 together with the
+// Byzantine validator Z; the victim hears only Z: the re-sign flood for another valid block Y.
+func (d *c01Dir) resign() bool {
+	s := d.s
+	if d.ht == nil || len(d.cor) < 3 {
+		return d.fail("setup")
+	}
+	d.byz = s.byzIDs(d.ht)
+	if len(d.byz) == 0 {
+		return d.fail("no-byzantine-validator")
+	}
+	z := d.byz[0]
+	d.x = s.nodes[c01Of(s).x]
+	x := d.x
+	p1 := s.proposerOf(d.ht, 1)
+	if p1 == x.id { // the victim must not be the one whose block the others decide
+		for _, nd := range d.cor {
+			if nd.id != p1 {
+				d.x, x = nd, nd
+				break
+			}
+		}
+	}
+	s.hold = func(m *netMsg, to int) bool { return true }
+	d.fire(d.cor...) // NewHeight -> round 1
+	if s.byz[p1] {
+		blk, ps := s.byzBlock(d.ht.h, p1, "valid")
+		if blk == nil {
+			return d.fail("no-byz-block")
+		}
+		d.a = types.BlockID{Hash: blk.Hash(), PartsHeader: ps.Header()}
+		d.byzProposal(p1, 1, 0, d.a, ps)
+	} else {
+		d.a = d.proposalOf(1)
+	}
+	if d.a.IsZero() {
+		return d.fail("no-proposal")
+	}
+	// the other block
+	yb, yps := s.byzBlock(d.ht.h, z, "valid")
+	if yb == nil {
+		return d.fail("no-byz-block")
+	}
+	d.c = types.BlockID{Hash: yb.Hash(), PartsHeader: yps.Header()}
+	if d.c.Equal(d.a) {
+		return d.fail("same-block")
+	}
+	typ := []kproto.SignedMsgType{kproto.PrecommitType, kproto.PrecommitType, kproto.PrevoteType}[s.r.Intn(3)]
+	when := s.r.Intn(2) // the flood before / after the others decided
+	zi := d.ht.idxOf[z]
+	k := int(3*d.ht.total/d.ht.powers[zi])/2 + 2 + s.r.Intn(3)
+	s.o.Count(fmt.Sprintf("scenario:resign:type=%d:when=%d", typ, when))
+	if when == 0 {
+		c01Flood(s, x, z, d.ht.h, 1, typ, d.c, k)
+	}
+	// the others decide X with all Byzantine validators voting for it
+	var others []*netNode
+	for _, nd := range d.cor {
+		if nd.id != x.id {
+			others = append(others, nd)
+		}
+	}
+	for _, nd := range others {
+		d.giveProposal(nd, 1, d.a)
+	}
+	for _, b := range d.byz {
+		d.byzVote(b, kproto.PrevoteType, 1, d.a)
+	}
+	isOther := func(id int) bool { return id != x.id }
+	for _, nd := range others {
+		d.give(nd, func(m *netMsg) bool {
+			return m.kind == 'V' && m.vote.Type == kproto.PrevoteType && m.vote.Round == 1 && m.vote.BlockID.Equal(d.a) && isOther(m.from)
+		})
+	}
+	for _, b := range d.byz {
+		d.byzVote(b, kproto.PrecommitType, 1, d.a)
+	}
+	for _, nd := range others {
+		d.give(nd, func(m *netMsg) bool {
+			return m.kind == 'V' && m.vote.Type == kproto.PrecommitType && m.vote.Round == 1 && m.vote.BlockID.Equal(d.a) && isOther(m.from)
+		})
+	}
+	decided := 0
+	for _, nd := range others {
+		if nd.cs.Height > d.ht.h {
+			decided++
+		}
+	}
+	if decided == 0 {
+		s.o.Count("scenario:resign:others-undecided")
+	}
+	if when == 1 {
+		c01Flood(s, x, z, d.ht.h, 1, typ, d.c, k)
+	}
+	s.o.Mark("scenario-resign-prefix-reached")
+	return true
 }
 
 // relock: see the head of the file.
